@@ -2,6 +2,7 @@ package main
 
 import (
 	"fmt"
+	"go/token"
 	"go/types"
 	"sort"
 	"strings"
@@ -128,6 +129,37 @@ func runC11(c *Ctx) {
 	}
 	c.Min("C11.X1", 1+2*2)
 
+	// ---- X2: pointer well-formedness. The library's findObject splits the pointer at "/" and ignores the
+	// text before the first "/" — unless it checks that text to be empty, a pointer such as "x/service"
+	// addresses the root member "service" while evading every "/service" prefix test. Either the library
+	// enforces the leading "/", or the validator must (for every pointer member, for every operation).
+	{
+		libOK, _, nLib := c.Guard(findObject, nil, cmpReject(`text before the first "/" must be empty`, token.NEQ, pathIs(`strings.Split($1,"/")[0]`), pathIs(`""`)), func(in ssa.Instruction) bool {
+			r, ok := in.(*ssa.Return)
+			return ok && c.Path(r.Results[0], nil) != "nil"
+		})
+		libEnforces := libOK && nLib > 0
+		c.Note("json-patch findObject enforces a leading '/': %v", libEnforces)
+		if !libEnforces {
+			for _, K := range keys {
+				if strings.HasPrefix(K, "<") {
+					continue
+				}
+				K := K
+				isDecodedK := func(a string) bool { return strings.HasPrefix(a, "decoded(") && memberOf(a, K) }
+				chk := anyOf(fmt.Sprintf("%q pointer is empty or starts with \"/\" (or member absent/null/undecodable)", K),
+					&GCheck{Name: `HasPrefix(pointer, "/")`, MatchCall: func(c *Ctx, call *ssa.Call, env Env) bool {
+						return call.Call.StaticCallee() == hasPrefix && c.Path(call.Call.Args[1], env) == `"/"` && isDecodedK(c.Path(call.Call.Args[0], env))
+					}},
+					cmpAccept(`pointer == ""`, token.EQL, isDecodedK, pathIs(`""`)))
+				c.checkPointerMember("C11.X2", V, K, "well-formed", chk, memberOf)
+			}
+		} else {
+			c.Check("C11.X2", "library-enforces-leading-slash", true, findObject.Pos(), "the library itself rejects pointers whose first component is not empty")
+		}
+	}
+	c.Min("C11.X2", 1)
+
 	// validator and composer use the same decoder, on the patch's own value
 	decode := lib.Func("DecodePatch")
 	applyJSON := c.Fn(pComposer, "applyJSON")
@@ -251,6 +283,13 @@ func (c *Ctx) checkPointerMember(rule string, V *ssa.Function, K, P string, hp *
 		cut[e] = true
 	}
 	key := fmt.Sprintf("member %q vs prefix %q", K, P)
+	if P == "well-formed" {
+		key = fmt.Sprintf("member %q is a well-formed pointer", K)
+		if len(ss) == 0 {
+			c.Check(rule, key, false, V.Pos(), fmt.Sprintf("the RFC 6902 library ignores the text before the first '/' of a pointer, and the validator never requires the %q member to start with '/': a pointer like \"x/service\" addresses the protected root member while evading the prefix tests", K))
+			return
+		}
+	}
 	if len(ss) == 0 {
 		c.Check(rule, key, false, V.Pos(), fmt.Sprintf("the validator never tests the %q member of an operation against %q although the RFC 6902 library dereferences it as a JSON pointer", K, P))
 		return
